@@ -202,6 +202,15 @@ def stepTop (h : Hooks) (s : Sess) (toks : List String) : Sess × String :=
       | some i, some d, some v =>
           if s.m.okβ i d then ({ s with m := s.m.setβ i d v }, "ok") else (s, "panic")
       | _, _, _ => (s, "bad-op")
+  | "setbs" :: d :: imgs =>
+      -- `set_betas(d, [b0, …])`: one raw write per image (C07: unit of work of a thread in the schedule explorer)
+      match d.toNat?, imgs.mapM String.toNat? with
+      | some d, some vs =>
+          if vs.length ≠ s.cfg.nb then (s, "bad-op") else
+          if (List.range vs.length).all (fun i => s.m.okβ i d) then
+            ({ s with m := (List.range vs.length).foldl (fun m i => m.setβ i d (vs.getD i 0)) s.m }, "ok")
+          else (s, "panic")
+      | _, _ => (s, "bad-op")
   | ["fault", k] =>
       match k.toNat? with
       | some k => ({ s with m := { s.m with fc := k } }, "ok")
